@@ -48,6 +48,12 @@ CLAIMED = {
  "C20": ("3.7, 5 (C20)",
    "Props/C20.v: for ALL strings and widths >= 1 the abbreviation helper returns min(len,w) characters, leaves a fitting string unchanged and otherwise keeps w-1 characters plus the '#' marker; every job row is exactly as wide as the header row for arbitrary cell contents in all four table variants; the table is heading + true job count + header + dashes + exactly one row per job in ascending due-time order. Tied by re-translation of str_cutoff (Tie lemma) and by comparing str(scheduler), str(job) and str_cutoff of the real code with the extracted model over all callable kinds (def, lambda, builtin, bound/static/class method, partial, callable instance, class; asyncio variants), aliases, weights, attempt counts, timezone names and due distances, both front ends.",
    "Coq kernel; extraction + driver; translator; CPython's rendering of datetime/timedelta/float/tzname and callable attributes enters the model as strings (modelled not verified); 'never raises' for the callable kinds is exhaustive testing of a finite table", T_TIE),
+ "C17": ("3.6, 5 (C17)",
+   "Props/C17.v over the discrete-event model of the asyncio scheduler (Model/Aio.v): the supervisor resumes at max(reference, due) -- never early, no further delay; the coroutine starts at that instant with the scheduled arguments; on completion the job is counted and rescheduled by the SAME job_cycle function the C01-C09 theorems are about, with the completion instant as reference; resuming one job's task touches no other job's record; the state invariant holds after every operation and any amount of virtual time. Tied by running the real asyncio scheduler on a virtual-time event loop (integer-microsecond clock, datetime.now derived from it) against the extracted model: all job types, batching, skip_missing, stop, limits, failing coroutines, durations 0/shorter/equal/longer than the period.",
+   "Coq kernel; extraction + driver; the asyncio event loop is modelled (discrete events), not verified; same-instant ordering between different jobs is not compared; wall-clock effects out of scope", T_SEQ),
+ "C18": ("3.6, 5 (C18)",
+   "Props/C18.v: delete_job removes the entry and cancels a suspended supervisor at once; the loop only ever resumes suspended tasks and resuming a cancelled/finished one is the identity (never started again); deleting an unregistered job raises SchedulerError and changes nothing; in every reachable state the job set contains exactly live supervisors (finished jobs vanish), for any sequence of scheduling, deletion (by reference, tags, all; before/between/during runs; from inside the job's own coroutine) and virtual time; every model transition is total. On the real code the harness additionally observes the loop's exception handler and task.exception() of every supervising task, and that constructing the scheduler without a running loop raises SchedulerError.",
+   "as C17; 'no task ends with an unhandled exception' and 'constructor needs a loop' are runtime observations on every history, not theorems", T_SEQ),
  "C19": ("5 (C19)",
    "Props/C19.v: jobs own their arguments/keyword mapping/tags as values (abstract spec); creation stores exactly what was given, no operation changes a job's configuration, every invocation passes exactly those values. That the implementation refines this (insulation from the caller's later mutations) is checked by the correspondence: the harness mutates the passed dict, the passed tag set and the set returned by .tags after every scheduling call.",
    N_SEQ + "; dict.copy()/set.copy() modelled as value ownership", T_SEQ),
